@@ -20,9 +20,9 @@ def plan(ctx):
     k = P.per_interp_shards(ctx)
     for v in ctx.producers:
         if ctx.tier == "quick":
-            cases = P.corpus_cases(ctx, v, n_files=400, n_w3=150, modes=40, max_file_bytes=300000)
+            cases = P.corpus_cases(ctx, v, n_files=400, n_extra=50, n_w3=150, modes=40, max_file_bytes=300000)
         else:
-            cases = P.corpus_cases(ctx, v, all_files=True, n_w3=1500, modes=200)
+            cases = P.corpus_cases(ctx, v, all_files=True, all_extra=True, n_w3=1500, modes=200)
         shards.extend(P.split(ctx, v, cases, k, "C02:"))
     return shards
 
